@@ -243,6 +243,9 @@ fn mod_ops(db: &EncDb) -> Vec<Op> {
         Op::RemoveStream { name: "big".into() },
         Op::Summary(SumOp::SetAuthor("me".into())),
         Op::Reopen,
+        // rows with strings in a table created in this session (only
+        // meaningful after the create above: always run as a pair)
+        Op::Insert { table: "New".into(), rows: vec![vec![Val::Int(1), Val::Str(text[1].clone())], vec![Val::Int(2), Val::Str(text[0].clone())], vec![Val::Int(3), Val::Null]] },
     ];
     if let Some(nk) = t.cols.iter().find(|c| !c.spec.key) {
         let v = match nk.spec.ty {
@@ -294,6 +297,12 @@ fn check_file(c: &FileCase, depth: usize) -> (u64, Vec<V>) {
     // modifications
     let ops = mod_ops(&c.db);
     let mut seqs: Vec<Vec<usize>> = (0..ops.len()).map(|i| vec![i]).collect();
+    // create a table, fill it, (reopen)
+    let ci = ops.iter().position(|o| matches!(o, Op::CreateTable { .. })).unwrap();
+    let ii = ops.iter().position(|o| matches!(o, Op::Insert { table, .. } if table == "New")).unwrap();
+    let ri = ops.iter().position(|o| matches!(o, Op::Reopen)).unwrap();
+    seqs.push(vec![ci, ii]);
+    seqs.push(vec![ci, ri, ii]);
     if depth >= 2 {
         for i in 0..ops.len() {
             for j in 0..ops.len() {
